@@ -499,12 +499,18 @@ def run_for(prop, tier, only=None):
     # ---- mechanical scan of the generated text for anything that is assumed rather than proved
     scan = {"assume(": len(re.findall(r"\bassume\s*\(", text)), "admit(": len(re.findall(r"\badmit\s*\(", text)),
             "external_body": re.findall(r"#\[verifier::external_body\]\s*\n\s*(?:pub(?:\(crate\))? )?(?:unsafe )?fn (\w+)", text),
-            "assume_specification": re.findall(r"assume_specification<[^>]*>\[\s*([\w:]+)", text)}
+            "assume_specification": [" ".join(x.split()) for x in re.findall(r"assume_specification\b.*?>\[\s*(.+?)\s*\]\s*\(", text)]}
     res["assumption_scan"] = scan
+    trusted = [f["name"] for f in fns if f["trusted"]]
+    res["trusted_functions"] = trusted
     res["assumptions"] = [
-        "Verus: the contracts of the six slot accessors (item_ref, item_mut, value_mut, item_read, item_drop, item_write) are external_body - assumed here, discharged by Kani contract proofs at N<=4 (core_contracts)",
-        "Verus: core::mem::drop is given an assumed specification (no effect on the caller's state)",
-        "Verus: ghost slot state slot_of(pairs,i) models a move out of MaybeUninit as Some -> None; machine integers are bounded mathematical integers with overflow as an obligation",
+        "Verus: assumed contracts (external_body, bodies not verified by Verus; discharged by the Kani units at N<=3/4): " + ", ".join(trusted)
+        + " - item_read because the move out of a MaybeUninit cell (cell treated as vacated afterwards) is an ownership discipline, not a fact about bytes; the others because their bodies call Iterator::enumerate (a provided trait method this Verus cannot specify) or the crate's own iterator types",
+        "Verus: assumed specifications of core functions vstd does not cover: " + ", ".join(scan["assume_specification"])
+        + "; Borrow::borrow is specified only under the hypothesis obeys_borrow (deterministic borrow_spec)",
+        "Verus: vstd's own specifications of MaybeUninit::{assume_init_ref,assume_init_mut}, slice indexing/iter/iter_mut, Iterator::{find,next,...}, Option::{map,is_some,is_none}, `?` are trusted as part of vstd",
+        "Verus: what the extraction changes is listed in lib/verus_units.py (result naming, pub fields, trait impl headers -> inherent, closure clauses, closure pattern parameters bound by let, module layout); bodies are otherwise byte-identical and the identity is checked on every run",
+        "Verus: machine integers are bounded mathematical integers with overflow as an obligation; slot state slot_of(pairs,i) is vstd's MaybeUninit mem_contents of pairs@[i]",
     ]
     res["wall_s"] = round(time.time() - t0, 2)
     res["verus_total_verified"] = vr.get("verified")
